@@ -276,7 +276,9 @@ def check_overload(ctx, m, cfg, alias=None):
             if res == z3.sat: return confirm(ctx, m, info, cfg, sig, 'a written value differs from the scalar operation on the designated operands', mdl)
             if res != z3.unsat: return inconc('value query unknown')
         else:
-            X = fresh_idx(); impl = u.read_at(X); sp = u.A0(X)
+            # the write logs differ (order or number of stores): compare the two final memories at a fresh symbolic index
+            X = fresh_idx(); impl = u.A0(X); sp = u.A0(X)
+            for (o, v) in u.log: impl = z3.If(o == X, alg.toz3(v), impl)
             for (o, v) in swr: sp = z3.If(o == X, alg.toz3(v), sp)
             res, mdl = ask((impl - sp) % P != 0, 'memory', 120); nq += 1
             if res == z3.sat: return confirm(ctx, m, info, cfg, sig, 'final output memory differs from the scalar reference update', mdl)
@@ -334,6 +336,13 @@ def kernel_fills(ctx, cfg, pf, n):
         if r.status == 'sat':
             fills.append(dict(a=core.limbval(r.model, 'px'), b=core.limbval(r.model, 'py'), how='operands of ' + pname, other=r.model.get('wa', 0)))
             fills.append(dict(a=core.limbval(r.model, 'py'), b=core.limbval(r.model, 'px'), how='operands of ' + pname + ' (swapped)'))
+            # the failing kernel call may combine DIFFERENT coefficients of an extension element (Karatsuba: a1·b1 against a0·b0): place the
+            # witness pair in one coefficient position and small values - or the witness value of the consumer's other operand - elsewhere
+            px_, py_, oth = core.limbval(r.model, 'px'), core.limbval(r.model, 'py'), r.model.get('wa', 0)
+            for j in range(3):
+                for oa, ob in ((oth, 1), (1, oth), (0, 0), (1, 1)):
+                    fills.append(dict(a=(lambda k, i, j=j, oa=oa, v=px_: v if i == j else oa), b=(lambda k, i, j=j, ob=ob, v=py_: v if i == j else ob),
+                                      how='operands of %s in coefficient %d, (%#x, %#x) in the other coefficients' % (pname, j, oa, ob)))
     return fills
 
 def confirm(ctx, m, info, cfg, sig, text, mdl, fills=()):
